@@ -52,8 +52,22 @@ def normAux : Nat → Int → Int → Flt
   | fuel + 1, m, e => if m == 0 then .dy 0 0 else if m % 2 == 0 then normAux fuel (m / 2) (e + 1) else .dy m e
 def norm (m e : Int) : Flt := normAux (m.natAbs + 1) m e
 
-/-- `float(i)` where exact (|i| ≤ 2^53 always is; larger values are outside the modelled domain) -/
-def intToFlt (i : Int) : Flt := norm i 0
+/-- `float(i)` raises OverflowError: |i| rounds to 2^1024 or beyond -/
+@[irreducible] def intOverflows (i : Int) : Bool := decide (2 ^ 1024 - 2 ^ 970 ≤ i.natAbs)
+
+/-- `float(i)`: exact when |i| has at most 53 significant bits, otherwise rounded to 53 bits, ties to even (CPython's
+    `_PyLong_AsDouble`); meaningful where `intOverflows i = false` -/
+def intToFlt (i : Int) : Flt :=
+  let n := i.natAbs
+  let bits := if n = 0 then 0 else Nat.log2 n + 1
+  if bits ≤ 53 then norm i 0
+  else
+    let shift := bits - 53
+    let q := n / 2 ^ shift
+    let r := n % 2 ^ shift
+    let half := 2 ^ (shift - 1)
+    let q' := if half < r || (r == half && q % 2 == 1) then q + 1 else q
+    norm (if i < 0 then -(q' : Int) else (q' : Int)) (shift : Int)
 
 /-- `int(f)`: truncation toward zero -/
 inductive TruncRes where
